@@ -10,6 +10,7 @@ miss=0
 for n in $names; do
   d=/verif/seeded/$n
   [ -f "$d/patch.diff" ] || continue
+  if grep -q '"retired"' "$d/meta.json"; then echo "$n: retired (no longer a defect)"; continue; fi
   pid=${n%%-*}
   git -C /repo apply "$d/patch.diff" || { echo "$n: PATCH DOES NOT APPLY"; miss=1; continue; }
   out=$(timeout 1500 ./check "$pid" 2>&1 | grep -c "^VIOLATION property=$pid")
